@@ -175,6 +175,11 @@ pub fn fill_majority(num_vars: usize, table: &mut [u64]) {
 pub fn fill_random(num_vars: usize, table: &mut [u64]) {
     use rand::RngCore;
     for t in table {
+        #[cfg(volute_verif)]
+        if let Some(w) = verif_rng::next_injected() {
+            *t = w & num_vars_mask(num_vars);
+            continue;
+        }
         *t = rand::thread_rng().next_u64() & num_vars_mask(num_vars);
     }
 }
@@ -530,5 +535,41 @@ mod tests {
             all |= mask;
         }
         assert_eq!(all, !0u64);
+    }
+}
+
+/// Verification hook: a word stream that `fill_random` reads instead of the thread-local
+/// generator while one is injected on the calling thread
+#[cfg(all(volute_verif, feature = "rand"))]
+pub mod verif_rng {
+    use std::cell::RefCell;
+    use std::collections::VecDeque;
+
+    thread_local! {
+        static STREAM: RefCell<Option<VecDeque<u64>>> = const { RefCell::new(None) };
+    }
+
+    /// Inject the words that the next calls of `fill_random` on this thread will read
+    pub fn inject(words: &[u64]) {
+        STREAM.with(|s| *s.borrow_mut() = Some(words.iter().cloned().collect()));
+    }
+
+    /// Remove the injected stream and return the words that were not read
+    pub fn take() -> Vec<u64> {
+        STREAM.with(|s| {
+            s.borrow_mut()
+                .take()
+                .map(|d| d.into_iter().collect())
+                .unwrap_or_default()
+        })
+    }
+
+    /// Next injected word, if a stream is injected (panics when it is exhausted)
+    pub(crate) fn next_injected() -> Option<u64> {
+        STREAM.with(|s| {
+            s.borrow_mut()
+                .as_mut()
+                .map(|d| d.pop_front().expect("injected word stream exhausted"))
+        })
     }
 }
